@@ -9,6 +9,7 @@ programs: a real twin world with direct references in dependency order; cyclic p
 model of the declared structure, itself cross-checked against the direct twin on every acyclic run).
 """
 import copy
+import json
 
 from sim import kernel, faults
 from sim.runner import RunResult
@@ -495,6 +496,21 @@ def _special_call(mod, S, prog, u):
     return lambda: cls.__from__(copy.deepcopy(u["data"]))
 
 
+def direct_schema(prog, ci):
+    """JSON schema of class ci in a fresh direct-reference twin (names normalised)."""
+    from utype.specs.json_schema.generator import JsonSchemaGenerator
+    S = "__" + kernel.new_suffix()
+    src = [HEADER, alias_source(S)]
+    for c in topo(prog):
+        src.append(class_source(prog, c, S, direct=True))
+    mod = kernel.make_module("verif_c17_directschema_" + S.strip("_"), "\n".join(src))
+    try:
+        out = JsonSchemaGenerator(getattr(mod, f"C{ci}{S}"))()
+    except Exception:  # noqa
+        return None
+    return json.loads(kernel._SUFFIX.sub("", json.dumps(out, sort_keys=True, default=str)))
+
+
 def run_direct_twin(prog, uses):
     """The same program with direct references, classes in dependency order; only for acyclic programs."""
     S = "__" + kernel.new_suffix()
@@ -642,9 +658,22 @@ def execute(plan):
             ci = e["cls"]
             if ci in defined:
                 from utype.specs.json_schema.generator import JsonSchemaGenerator
-                o = _outcome(lambda: JsonSchemaGenerator(getattr(mod, f"C{ci}{S}"))() and None)
+                box = {}
+
+                def gen_schema():
+                    box["s"] = JsonSchemaGenerator(getattr(mod, f"C{ci}{S}"))()
+                o = _outcome(gen_schema)
                 res.stats["probe:schema_generated"] += 1
                 res.ev(n, "schema", ci, o[0])
+                # the generated JSON schema is another reader of the resolved types: for acyclic programs whose names all
+                # exist it must be the schema of the direct-reference twin
+                if not cyclic and _needs(prog, ci).issubset(defined) and (alias_defined or not any(prog["classes"][c].get("lim") for c in _needs(prog, ci))):
+                    want_s = direct_schema(prog, ci)
+                    got_s = json.loads(kernel._SUFFIX.sub("", json.dumps(box.get("s"), sort_keys=True, default=str))) if "s" in box else o
+                    if want_s is not None and got_s != want_s:
+                        # not a clause of C17 (it speaks about parsing inputs; schema generation is C13's subject, and it does
+                        # not resolve pending references before a first parse): counted, not judged
+                        res.stats["probe:json_schema_differs_from_direct"] += 1
         elif k == "use":
             want = want_all[ui]
             ui += 1
